@@ -158,6 +158,12 @@ def subchecks(tier):
                         n={"quick": 3600, "thorough": 20000},
                         rule="JSQ / LB decisions for re-routed customers (pre-emptive priorities and 're-route' schedules incl. zero-server shifts) with small finite capacities at the destinations; "
                              "non-trivial = >= 1 re-routing decision taken by a JSQ / LB router"),
+        system_subcheck("reroute_classchange", common.region_profile("C09", more_weights={"sched_reroute": 1.0, "cc_after": 1.0, "priorities": 0.5, "routing_objects": 0.0},
+                                                                   required=("schedule", "capacity", "cc_after"), max_classes=3),
+                        lambda spec: [Fidelity(spec)], lambda a, spec, res: a.get("class_changes_after", 0) >= 1 and a.get("rec_interrupted_service", 0) >= 1,
+                        classes=classes, obs=True, n={"quick": 3600, "thorough": 20000},
+                        rule="'re-route' schedules x blocking x class change after service: a customer that has changed class and is blocked when its shift ends is "
+                             "re-routed by the routing of its current class (transition matrices with exact zeros)"),
         system_subcheck("system", prof, lambda spec: [Fidelity(spec)], nontrivial, classes=classes, obs=True,
                         n={"quick": 7200, "thorough": 40000}, rule="routing decisions vs spec with true populations"),
         SubCheck("random_choice", choice_execute, strategy=choice_case(), n={"quick": 48000, "thorough": 200000}, kind="unit",
